@@ -1620,6 +1620,10 @@ pub fn drive(tier_name: &str, seed: u64, workers: usize) -> i32 {
     if probe_state == "failed" {
         violations += 1;
     }
+    if std::env::var("VERIF_MIRI_FAILED").is_ok() {
+        violations += 1;
+    }
+    let miri_summary: Value = std::env::var("VERIF_MIRI_SUMMARY").ok().and_then(|p| std::fs::read_to_string(p).ok()).and_then(|t| serde_json::from_str(&t).ok()).unwrap_or(json!({"skipped": "not run"}));
     let wall = t0.elapsed().as_secs_f64();
     let site_names = site_names();
     let named = |v: &Vec<u64>| -> BTreeMap<String, u64> { v.iter().enumerate().filter(|(_, n)| **n > 0).map(|(i, n)| (site_names.get(&(i as u32)).cloned().unwrap_or(format!("site{}", i)), *n)).collect() };
@@ -1646,6 +1650,7 @@ pub fn drive(tier_name: &str, seed: u64, workers: usize) -> i32 {
         "probes": probes_sum,
         "first_library_call_of_process_by_kind": first_kinds,
         "send_sync_probe_crate": probe_state,
+        "miri_layer": miri_summary,
         "runs_that_hit_the_step_cap": cap_hits,
         "runs_that_stalled_and_were_re_run_with_atomic_operations": STALLED_RUNS.load(std::sync::atomic::Ordering::Relaxed),
         "determinism": {"runs_re_executed_in_a_second_process_at_3_workers": determinism_checked, "fingerprint_mismatches": determinism_mismatch.len()},
